@@ -259,23 +259,24 @@ def prove(pc, goal, timeout_ms, cross=False, light=False, inputs=None):
     #     sound, a 'sat' answer of a slice means nothing and is ignored.  The unrelated non-linear facts of the state (cell * n =
     #     edges, ...) are what makes the non-linear clauses of C15 / C13 unstable (0.3 s ... minutes for one and the same text);
     #  3. the 4 s attempt, the fresh process, the cheap counter-model searches, the full budget, retry, external solvers.
+    cli_slice_done = False
     if _nonlinear(g):
-        # 0. a non-linear goal goes to a FRESH solver process first, on its relevant hypotheses, then on everything: nlsat inside the
-        #    long-lived exploration process was seen to ignore its time limits (one text: 0.3 s fresh, 60 s in process)
+        # 0. a non-linear goal goes to a FRESH solver process first, on its relevant hypotheses: nlsat inside the long-lived
+        #    exploration process was seen to ignore its time limits (one text: 0.3 s fresh, 60 s in process)
         sl0 = next(iter(relevant_slices(pc, g, 1)), (1, None))[1]
-        for hyp, tag in ((sl0, 'fresh process, relevant hypotheses, depth 1'), (pc, 'fresh process')):
+        for hyp, tag, wall in ((sl0, 'fresh process, relevant hypotheses, depth 1', 3), (pc, 'fresh process', 4)):
             if hyp is None:
                 continue
+            cli_slice_done = True
             so_ = z3.Solver()
             so_.add(*hyp)
             so_.add(z3.Not(g))
-            if run_z3_cli(so_.to_smt2(), 5) == 'unsat':
+            if run_z3_cli(so_.to_smt2(), 5, wall_s=wall) == 'unsat':      # short wall-clock caps: this stage is a short cut only
                 return 'discharged', f'z3-5.1({tag})', time.time() - t0, None, ''
     so, r = attempt(min(1000, timeout_ms), wall=1500)
     fresh_backend = None
     if r == z3.unknown:
-        slices = list(relevant_slices(pc, g, 2))
-        for depth, sl in slices:
+        for depth, sl in relevant_slices(pc, g, 2):
             so_ = z3.Solver()
             so_.set('rlimit', int(2000 * RLIMIT_PER_MS))
             so_.set('timeout', 3000)
@@ -283,8 +284,13 @@ def prove(pc, goal, timeout_ms, cross=False, light=False, inputs=None):
             so_.add(z3.Not(g))
             if so_.check() == z3.unsat:
                 return 'discharged', f'z3-5.1(relevant hypotheses, depth {depth})', time.time() - t0, None, ''
-            if depth == 1 and run_z3_cli(so_.to_smt2(), 5) == 'unsat':
+            if depth == 1 and not cli_slice_done and run_z3_cli(so_.to_smt2(), 5) == 'unsat':
                 return 'discharged', f'z3-5.1(fresh process, relevant hypotheses, depth {depth})', time.time() - t0, None, ''
+        # the cheap counter-model search for line operators comes BEFORE the long attempts (a refutable obligation - a negative
+        # control, a real regression - must not cost minutes); it returns at once where no line operator occurs
+        sr = refute_with_line_abstraction(pc, g, inputs)
+        if sr is not None:
+            return 'failed', 'z3-5.1(line abstraction with witnesses)', time.time() - t0, sr.model(), ''
         if timeout_ms > 1000:
             so, r = attempt(min(4000, timeout_ms))
     if r == z3.unknown:
@@ -295,9 +301,6 @@ def prove(pc, goal, timeout_ms, cross=False, light=False, inputs=None):
         if res == 'unsat':
             return 'discharged', 'z3-5.1(fresh process)', time.time() - t0, None, ''
     if r == z3.unknown:
-        sr = refute_with_line_abstraction(pc, g, inputs)
-        if sr is not None:
-            return 'failed', 'z3-5.1(line abstraction with witnesses)', time.time() - t0, sr.model(), ''
         sr = refute_by_sampling(pc, g, inputs)
         if sr is not None:
             return 'failed', 'z3-5.1(sampled geometry)', time.time() - t0, sr.model(), ''
@@ -408,7 +411,7 @@ def relevant_slices(pc, goal, maxdepth):
         yield d + 1, [c for i, c in enumerate(cs) if inc[i]]
 
 
-def run_z3_cli(smt, tlimit_s):
+def run_z3_cli(smt, tlimit_s, wall_s=None):
     z3new = shutil.which('z3-new') or '/opt/veriftools/pyvenv/bin/z3'
     if not os.path.exists(z3new):
         return 'unknown'
@@ -416,7 +419,7 @@ def run_z3_cli(smt, tlimit_s):
         fh.write(smt)
         path = fh.name
     try:
-        r = subprocess.run([z3new, f'-T:{tlimit_s * 10}', f'rlimit={int(tlimit_s * 1000 * RLIMIT_PER_MS)}', path], capture_output=True, text=True, timeout=tlimit_s * 10 + 5)
+        r = subprocess.run([z3new, f'-T:{wall_s or tlimit_s * 4}', f'rlimit={int(tlimit_s * 1000 * RLIMIT_PER_MS)}', path], capture_output=True, text=True, timeout=(wall_s or tlimit_s * 4) + 5)
         first = (r.stdout.strip().splitlines() or ['unknown'])[0].strip()
         return first if first in ('sat', 'unsat') else 'unknown'
     except Exception:
